@@ -36,7 +36,7 @@ def run(it):
     if r.returncode != 0:
         shutil.rmtree(d, ignore_errors=True); return (it, None, "patch does not apply: " + r.stderr.strip()[:200])
     e = dict(env, UHLINT_REPO=d, UHLINT_EVIDENCE_DIR=ev)
-    r = subprocess.run(["/verif/bin/uhlint", "check", "ALL"], capture_output=True, text=True, env=e)
+    r = subprocess.run(["/verif/bin/uhlint", "check", "ALL"], capture_output=True, text=True, errors="replace", env=e)
     shutil.rmtree(d, ignore_errors=True); shutil.rmtree(ev, ignore_errors=True)
     hits = {}; lines = []
     cur = []
